@@ -16,13 +16,17 @@ import core
 # fixed name table shared by every case (index = token in the driver protocol)
 TABLE = [None, "", " \t", "\u3000\u2028", "textDocument/hover", "textDocument/completion",
          "textDocument/didSave", "textDocument/semanticTokens/full", "initialized", "custom/x",
-         "cmd.a", "cmd.b", "textDocument/hover "]
+         "cmd.a", "cmd.b", "textDocument/hover ", "textDocument/signatureHelp", "textDocument/codeAction",
+         "textDocument/semanticTokens/range"]
 IDX = {n: i for i, n in enumerate(TABLE)}
 N_NONE, N_EMPTY, N_WS, N_UWS = 0, 1, 2, 3
 PROBE_F = list(range(len(TABLE)))
 PROBE_C = [0, 1, 2, 4, 10, 11]
+assert len(TABLE) == 16
 # option kinds
-O_NONE, O_VALID, O_WRONG, O_STRUCT, O_FALSY, O_TYPEERR = 0, 1, 2, 3, 4, 5
+O_NONE, O_VALID, O_WRONG, O_STRUCT, O_FALSY, O_TYPEERR, O_BADFIELD, O_BADELEM = 0, 1, 2, 3, 4, 5, 6, 7
+# methods whose options class has a list-typed field (a right-class object can carry wrong-typed content)
+BADFIELD_NAMES = (5, 7, 13, 14, 15)
 # chk tokens of the driver
 CK_NOTYPE, CK_VALID, CK_WRONG, CK_UNKNOWN, CK_RAISES = 0, 1, 2, 3, 4
 # parameter shapes: (driver tokens, description)
@@ -45,10 +49,16 @@ def oracle(name_idx, okind):
         return (truthy, True, CK_NOTYPE)
     if name_idx in (9, 10, 11, 12):                  # not an LSP method: MethodTypeNotRegisteredError
         return (truthy, False, CK_UNKNOWN)
-    if name_idx == 7:                                # Union[SemanticTokensLegend, ...RegistrationOptions]
+    if okind in (O_BADFIELD, O_BADELEM) and name_idx not in BADFIELD_NAMES:
+        okind = O_WRONG                              # no list field to spoil: an unrelated object instead
+    if okind == O_BADFIELD:
+        return (True, False, CK_WRONG)               # X(list_field=5): iterating 5 raises TypeError in cattrs
+    if okind == O_BADELEM:
+        return (True, False, CK_VALID)               # X(list_field=[1, 2]): elements are not looked at (finding 27)
+    if name_idx in (7, 15):                          # Union[SemanticTokensLegend, ...RegistrationOptions]
         if okind == O_VALID:
             return (True, True, CK_VALID)
-        return (truthy, False, CK_VALID)             # cattrs passes anything through a Union (finding 27)
+        return (truthy, False, CK_VALID)             # cattrs passes any non-attrs object through a Union (finding 27)
     if okind == O_VALID:
         return (True, True, CK_VALID)
     if okind == O_STRUCT:
@@ -148,10 +158,10 @@ class _Impl:
             pass
 
     # -- handlers of every shape ------------------------------------------------------------
-    def make(self, hid, asy, par):
+    def make(self, hid, asy, par, srv=None):
         LS = self.LS
         log, inpool = self.log, self.inpool
-        srvbox = self.srvbox
+        srvbox = [srv] if srv is not None else [self.srvbox[0]]
         def rec(first, rest):
             inj = first is srvbox[0]
             probe = (rest[0] if rest else None) if inj else first
@@ -189,7 +199,19 @@ class _Impl:
                     5: lambda: t.CompletionOptions(trigger_characters=["."]),
                     6: lambda: t.SaveOptions(include_text=True),
                     7: lambda: t.SemanticTokensLegend(token_types=["a"], token_modifiers=[]),
+                    15: lambda: t.SemanticTokensLegend(token_types=["a"], token_modifiers=[]),
+                    13: lambda: t.SignatureHelpOptions(trigger_characters=["("]),
+                    14: lambda: t.CodeActionOptions(code_action_kinds=["quickfix"]),
                     }.get(ni, lambda: t.HoverOptions())()
+        if ok in (O_BADFIELD, O_BADELEM) and ni not in BADFIELD_NAMES:
+            ok = O_WRONG
+        if ok in (O_BADFIELD, O_BADELEM):
+            v = 5 if ok == O_BADFIELD else [1, 2]
+            return {5: lambda: t.CompletionOptions(trigger_characters=v),
+                    7: lambda: t.SemanticTokensLegend(token_types=v, token_modifiers=[]),
+                    15: lambda: t.SemanticTokensLegend(token_types=v, token_modifiers=[]),
+                    13: lambda: t.SignatureHelpOptions(trigger_characters=v),
+                    14: lambda: t.CodeActionOptions(code_action_kinds=v)}[ni]()
         if ok == O_WRONG:
             # fresh objects only (True / 5 / "x" behave the same but are shared singletons, which would
             # blur the identity bookkeeping of the snapshot)
@@ -290,7 +312,7 @@ class _Impl:
         try:
             r = srv.protocol.lsp_initialize(self.init_params)
             j = self.conv.unstructure(r)
-            return h8(json.dumps(j, sort_keys=True, default=str))
+            return h8(json.dumps(_unordered(j), sort_keys=True, default=str))
         except Exception as e:
             return "raise:" + type(e).__name__
 
@@ -327,7 +349,7 @@ class _Impl:
         body, sbody, u, excs = [], [], [], []
         for pos, (kind, ni, ok, asy, par, thr) in enumerate(seq):
             name = TABLE[ni]
-            f = self.make(pos + 1, asy, par)
+            f = self.make(pos + 1, asy, par, srv)
             if kind == 0:
                 opts = self.make_opts(ni, ok)
                 if opts is not None:
@@ -421,6 +443,214 @@ def struct_pairs():
     return out
 
 
+def run_inter(impl, case, deep=True):
+    """interleaved definitions / decorator creations / applications on one or several servers of
+    this process; same observation layout as run_seq (the acting server's snapshot after every op)"""
+    n = case["n"]
+    srvs = [impl.new_server() for _ in range(n)]
+    fns = [[] for _ in range(n)]
+    decs = [[] for _ in range(n)]
+    oids = [{} for _ in range(n)]
+    keep = []
+    fm = impl.fmod
+
+    def snap(k):
+        R = impl.registry_tokens(srvs[k], oids[k])
+        D = impl.dispatch_tokens(srvs[k])
+        C = impl.caps_hash(srvs[k]) if deep else ""
+        return R, D, C
+    prev = [snap(k) for k in range(n)]
+    t = [prev[0][0], prev[0][1]]
+    body, sbody, u, excs, fd = [], [], [], [], 1
+    for op in case["ops"]:
+        k, tag = op[0], op[1]
+        srv = srvs[k]
+        called = True
+        res = 1
+        if tag == "d":
+            fns[k].append(impl.make(len(fns[k]) + 1, op[2], op[3], srv))
+            called = False
+        elif tag == "m":
+            kind = op[2]
+            try:
+                if kind == 0:
+                    opts = impl.make_opts(op[3], op[4])
+                    if opts is not None:
+                        oids[k][id(opts)] = len(decs[k]) + 1
+                        keep.append(opts)
+                    d = srv.feature(TABLE[op[3]], opts) if op[4] != O_NONE else srv.feature(TABLE[op[3]])
+                elif kind == 1:
+                    d = srv.command(TABLE[op[3]])
+                else:
+                    d = srv.thread()
+            except Exception as e:       # creating a decorator is never refused (the model says so)
+                res = 0
+                excs.append(type(e).__name__)
+                d = None
+            decs[k].append(d)
+        else:
+            d, f = decs[k][op[2]], fns[k][op[3]]
+            fattrs = (fm.get_help_attrs(f), bool(fm.is_thread_function(f)))
+            try:
+                fns[k][op[3]] = d(f)
+            except Exception as e:
+                res = 0
+                excs.append(type(e).__name__)
+                if (fm.get_help_attrs(f), bool(fm.is_thread_function(f))) != fattrs:
+                    fd = 0
+        cur = snap(k) if called else prev[k]
+        if called:
+            if deep:
+                key = cur[0] + "".join(sorted(f"|{a!r}={b!r}" for a, b in
+                                              list(srv.protocol.fm.feature_options.items())))
+                if impl.caps_of.setdefault(key, cur[2]) != cur[2]:
+                    fd = 0
+            for j in range(n):           # the other servers of the process are untouched
+                if j != k and impl.registry_tokens(srvs[j], oids[j]) != prev[j][0]:
+                    fd = 0
+        body.append(f"{res} {cur[0]} {cur[1]}")
+        sbody.append(f"{res} {cur[0]}")
+        u.append("1" if cur == prev[k] else "0")
+        prev[k] = cur
+    t.append(str(len(body)))
+    t.extend(body)
+    return {"t": " ".join(t), "s": " ".join([str(len(sbody))] + sbody), "u": "".join(u), "fd": fd, "exc": excs}
+
+
+def enc_inter(case):
+    out = [str(case["n"]), str(len(case["ops"]))]
+    nd = [0] * case["n"]
+    nf = [0] * case["n"]
+    for op in case["ops"]:
+        k, tag = op[0], op[1]
+        if tag == "d":
+            nf[k] += 1
+            out.append(f"{k} 0 {op[2]} {PARAMS[op[3]][0]} {nf[k]}")
+        elif tag == "m":
+            nd[k] += 1
+            if op[2] == 0:
+                o = oracle(op[3], op[4])
+                os_ = "0" if o is None else f"1 {nd[k]} {int(o[0])} {int(o[1])} {o[2]}"
+                out.append(f"{k} 1 0 {op[3]} {os_}")
+            elif op[2] == 1:
+                out.append(f"{k} 1 1 {op[3]}")
+            else:
+                out.append(f"{k} 1 2")
+        else:
+            out.append(f"{k} 2 {op[2]} {op[3]}")
+    return " ".join(out)
+
+
+def inter_klass(case):
+    for op in case["ops"]:
+        if op[1] == "m" and op[2] == 0 and op[4] != O_NONE:
+            t, nom, chk = oracle(op[3], op[4])
+            if not t:
+                return "F27-falsy-options-ignored"
+            if not nom and chk in (CK_VALID, CK_NOTYPE):
+                return "F27-structural-option-check"
+    return None
+
+
+def inter_exhaustive():
+    """two registrations on one server in every order of their creations and applications, with an
+    optional thread decorator around the first function (table-driven registration)"""
+    out = []
+    slots = [(1, 10, O_NONE), (0, 5, O_NONE), (0, 5, O_VALID), (0, 5, O_BADFIELD), (0, 5, O_WRONG)]
+    orders = [("c1", "c2", "a1", "a2"), ("c1", "c2", "a2", "a1"), ("c1", "a1", "c2", "a2")]
+    for (k1, n1, o1) in slots:
+        for (k2, n2base, o2) in slots:
+            for same in (True, False):
+                if same and k1 != k2:
+                    continue
+                n2 = n1 if same else (11 if k2 == 1 else 13)
+                if o2 == O_BADFIELD and n2 == 13:
+                    pass
+                for asy in (0, 1):
+                    for order in orders:
+                        for thr in ("none", "first", "last"):
+                            ops = [[0, "d", asy, 1], [0, "d", 0, 0]]
+                            mk = {"c1": [0, "m", k1, n1, o1] if k1 == 0 else [0, "m", 1, n1],
+                                  "c2": [0, "m", k2, n2, o2] if k2 == 0 else [0, "m", 1, n2]}
+                            idx = {}
+                            nd = 0
+                            if thr != "none":
+                                ops.append([0, "m", 2]); tdec = nd; nd += 1
+                            if thr == "first":
+                                ops.append([0, "a", tdec, 0])
+                            for step in order:
+                                if step[0] == "c":
+                                    ops.append(mk[step]); idx[step[1]] = nd; nd += 1
+                                else:
+                                    ops.append([0, "a", idx[step[1]], int(step[1]) - 1])
+                            if thr == "last":
+                                ops.append([0, "a", tdec, 0])
+                            out.append({"k": "inter", "n": 1, "ops": ops})
+    return out
+
+
+def inter_priming():
+    """the verdict on an options object must not depend on earlier registrations in the process:
+    a valid registration (same options class) on ANOTHER server / the same server, then the
+    right-class-wrong-content object; and the converse (a refusal first, then a valid object)"""
+    out = []
+    for m in (5, 13, 14, 7):
+        for first, second in ((O_VALID, O_BADFIELD), (O_BADFIELD, O_VALID), (O_VALID, O_WRONG), (O_VALID, O_BADELEM)):
+            for other in (1, 0):
+                m2 = m if other else {7: 15}.get(m)
+                if m2 is None:
+                    continue
+                ops = [[0, "d", 0, 0], [0, "m", 0, m, first], [0, "a", 0, 0],
+                       [other, "d", 0, 1], [other, "m", 0, m2, second], [other, "a", 1 - other, 1 - other],
+                       [other, "d", 0, 2], [other, "m", 0, m2, O_VALID], [other, "a", 2 - other, 2 - other]]
+                out.append({"k": "inter", "n": 2, "ops": ops})
+    return out
+
+
+def inter_random(rng):
+    n = rng.choice([1, 1, 2, 3])
+    ops, nf, nd, regd = [], [0] * n, [[] for _ in range(n)], [set() for _ in range(n)]
+    for _ in range(rng.randint(3, 12)):
+        k = rng.randrange(n)
+        r = rng.random()
+        if r < 0.3 or nf[k] == 0:
+            ops.append([k, "d", rng.randint(0, 1), rng.randrange(len(PARAMS))]); nf[k] += 1
+        elif r < 0.6 or not nd[k]:
+            kind = rng.choice([0, 0, 0, 1, 1, 2])
+            if kind == 0:
+                ops.append([k, "m", 0, rng.choice([5, 5, 4, 13, 14, 7, 15, 6, 8, 9, 1, 0, 2]),
+                            rng.choice([O_NONE, O_VALID, O_VALID, O_WRONG, O_BADFIELD, O_BADFIELD, O_BADELEM,
+                                        O_STRUCT, O_FALSY, O_TYPEERR])])
+            elif kind == 1:
+                ops.append([k, "m", 1, rng.choice([10, 10, 11, 4, 1, 0, 2])])
+            else:
+                ops.append([k, "m", 2])
+            nd[k].append(kind)
+        else:
+            i = rng.randrange(len(nd[k]))
+            if nd[k][i] == 2:
+                j = rng.randrange(nf[k])
+            else:       # a function object takes part in at most one registration (see assumptions)
+                free = [j for j in range(nf[k]) if j not in regd[k]]
+                if not free:
+                    continue
+                j = rng.choice(free)
+                regd[k].add(j)
+            ops.append([k, "a", i, j])
+    return {"k": "inter", "n": n, "ops": ops}
+
+
+def _unordered(j):
+    """the order of plain string lists (executeCommandProvider.commands follows the order of
+    registration) is not something the property speaks of"""
+    if isinstance(j, dict):
+        return {k: _unordered(v) for k, v in j.items()}
+    if isinstance(j, list):
+        l = [_unordered(v) for v in j]
+        return sorted(l) if all(isinstance(v, str) for v in l) else l
+    return j
+
+
 def _hashable(k):
     try:
         hash(k)
@@ -448,6 +678,8 @@ def _run_case(impl, c):
         if k == "seq":
             o = impl.run_seq([tuple(a) for a in c["seq"]], deep=True)
             return o
+        if k == "inter":
+            return run_inter(impl, c, deep=True)
         if k == "block":
             deep = c.get("deep", False)
             ts, ss, us, fd = [], [], [], 1
@@ -514,7 +746,7 @@ def letters(alpha):
     return _LETTERS[alpha]
 
 
-POOLS = {0: [4, 5, 6], 1: [10, 11, 4]}
+POOLS = {0: [5, 4, 13], 1: [10, 11, 4]}
 
 
 def concretise(abs_seq, idxs):
@@ -531,6 +763,8 @@ def concretise(abs_seq, idxs):
             ni = nm
         if ni in POOLS[kind]:
             used[kind].append(ni)
+        if ok == O_WRONG and ni in BADFIELD_NAMES and li % 2:
+            ok = O_BADFIELD          # the wrong-type letter alternates: unrelated object / right class, bad content
         out.append((kind, ni, ok, asy, li % 3, t))
     return out
 
@@ -559,7 +793,9 @@ class C19(core.Property):
                    "shape_general", "site_iff_thread", "inject_iff_asked", "site_iff_thread_product",
                    "inject_iff_asked_product", "C19_partial", "C19_atomicity", "C19_refuted_structural",
                    "C19_refuted_falsy", "C19_refuted", "C19_reference_agrees", "C19_nonvacuous",
-                   "C19_unrepaired_refuted"]
+                   "C19_unrepaired_refuted", "creation_changes_nothing", "world_reject_is_identity",
+                   "world_at_most_one_handler", "world_history_atomic", "world_creation_silent", "mstep_frame",
+                   "wstep_refines", "wrun_refines", "C19_two_phase", "C19_two_phase_nonvacuous"]
     coq_targets = ["Props/C19.vo", "Extract/ExtractC19.vo"]
     rule = ("sequences of decorated definitions over {feature, command} x {fresh, taken, '', whitespace, None} x "
             "{no, valid, wrong-type options} x {sync, async} x {no thread, thread above, thread below}; a case is "
@@ -569,7 +805,11 @@ class C19(core.Property):
                     "harness/c19.py (generators, snapshots, the hand-written oracle table for the options check)",
                     "modelled not verified: str.strip/isspace, dict with str/None keys, inspect.signature / "
                     "get_type_hints (abstract signature), lsprotocol/cattrs type check (oracle bit)"]
-    assumptions = ["every attempt defines a new function object (a `def` statement)",
+    assumptions = ["a function object takes part in at most one registration (a `def` statement per handler); "
+                   "decorators may be created early, applied late, more than once or never",
+                   "the verdict of the options type check is a function of (method, options object) alone: it "
+                   "does not depend on earlier registrations on this or any other server of the process "
+                   "(modelling assumption, checked by the multi-server histories of the correspondence run)",
                    "names are None or str"]
     procs = 4
 
@@ -596,6 +836,11 @@ class C19(core.Property):
         else:
             blocks("mid", 2)            # length 3 over 80 letters
             blocks("tiny", 3)           # length 4 over 18 letters
+        # two-phase API: creations and applications interleaved; several servers in one process
+        cases.extend(inter_priming())
+        cases.extend(inter_exhaustive())
+        for _ in range(chk.n(1200, 15000)):
+            cases.append(inter_random(rng))
         # the registration-shape product (C14 half), also run here
         cases.extend(sh["case"] for sh in shapes_cases())
         # random sequences <= 6 over the rich alphabet (every name of the table, every option kind,
@@ -605,9 +850,10 @@ class C19(core.Property):
             seq = []
             for _ in range(n):
                 kind = 0 if rng.random() < 0.65 else 1
-                ni = rng.choice([4, 4, 5, 5, 6, 7, 8, 9, 12, 10, 0, 1, 2, 3]) if kind == 0 else \
+                ni = rng.choice([4, 4, 5, 5, 6, 7, 8, 9, 12, 10, 13, 14, 15, 0, 1, 2, 3]) if kind == 0 else \
                     rng.choice([10, 10, 11, 11, 4, 0, 1, 2, 3])
-                ok = rng.choice([O_NONE, O_NONE, O_VALID, O_VALID, O_WRONG, O_WRONG, O_STRUCT, O_FALSY, O_TYPEERR]) \
+                ok = rng.choice([O_NONE, O_NONE, O_VALID, O_VALID, O_WRONG, O_BADFIELD, O_BADFIELD, O_BADELEM, O_STRUCT, O_FALSY,
+                                 O_TYPEERR]) \
                     if kind == 0 else O_NONE
                 seq.append([kind, ni, ok, rng.randint(0, 1), rng.randrange(len(PARAMS)), rng.randrange(3)])
             cases.append({"k": "seq", "seq": seq})
@@ -624,22 +870,18 @@ class C19(core.Property):
 
     # ---------------- implementation ----------------
     def run_impl(self, chk, cases):
-        heavy = [i for i, c in enumerate(cases) if c["k"] in ("block", "seq")]
+        heavy = [i for i, c in enumerate(cases) if c["k"] in ("block", "seq", "inter", "struct")]
         out = [None] * len(cases)
-        light = [i for i, c in enumerate(cases) if c["k"] not in ("block", "seq")]
-        if len(heavy) < 40:
-            impl = _Impl()
-            try:
-                for i in heavy:
-                    out[i] = _run_case(impl, cases[i])
-            finally:
-                impl.close()
-        else:
+        light = [i for i, c in enumerate(cases) if c["k"] not in ("block", "seq", "inter", "struct")]
+        if heavy:
+            # always in freshly forked children: the parent never registers anything, so every
+            # evaluation (in particular a replay or a shrink candidate) starts from a clean process
             import multiprocessing as mp
             ctx = mp.get_context("fork")
-            nchunks = self.procs * 8
+            nproc = self.procs if len(heavy) >= 40 else 1
+            nchunks = nproc * 8 if len(heavy) >= 40 else 1
             chunks = [heavy[j::nchunks] for j in range(nchunks)]
-            with ctx.Pool(self.procs) as pool:
+            with ctx.Pool(nproc) as pool:
                 res = pool.map(_worker, [([cases[i] for i in ch], True) for ch in chunks], chunksize=1)
             for ch, rs in zip(chunks, res):
                 for i, r in zip(ch, rs):
@@ -675,6 +917,8 @@ class C19(core.Property):
         if k == "block":
             seqs = expand_block(c)
             return f"seqs {self.header()} {len(seqs)} " + " ".join(enc_seq(s) for s in seqs)
+        if k == "inter":
+            return f"inter {self.header()} {enc_inter(c)}"
         if k == "isspaces":
             return f"isspaces {c['lo']} {c['hi']}"
         if k == "struct":
@@ -710,8 +954,12 @@ class C19(core.Property):
 
     def model_output(self, c, toks):
         k = c["k"]
-        if k in ("seq", "block"):
+        if k in ("seq", "block", "inter"):
             self._stat(c, [p[1] for p in self._split(toks)])
+        if k == "inter":
+            (m, bits, s, g), = self._split(toks)
+            return {"M": {"t": m}, "S": {"s": s, "bits": bits}, "guard": g,
+                    "klass": None if g else inter_klass(c)}
         if k == "seq":
             (m, bits, s, g), = self._split(toks)
             return {"M": {"t": m}, "S": {"s": s, "bits": bits}, "guard": g,
@@ -735,7 +983,7 @@ class C19(core.Property):
 
     # impl = M: registry + dispatch after every call (the initialize result is not in the model)
     def same(self, c, impl, M):
-        if c["k"] in ("seq", "block"):
+        if c["k"] in ("seq", "block", "inter"):
             return isinstance(impl, dict) and impl.get("t") == M["t"]
         return impl == M
 
@@ -743,7 +991,7 @@ class C19(core.Property):
     # whole snapshot (registry, dispatch, initialize result) equals the previous one; the initialize
     # result depends on the registry only
     def satisfies(self, c, impl, S):
-        if c["k"] in ("seq", "block"):
+        if c["k"] in ("seq", "block", "inter"):
             if not isinstance(impl, dict) or impl.get("s") != S["s"] or not impl.get("fd"):
                 return False
             for ub, sb in zip(impl["u"].split(" "), S["bits"].split(" ")):
@@ -762,6 +1010,10 @@ class C19(core.Property):
         if c["k"] == "block":
             for s in expand_block(c):
                 yield {"k": "seq", "seq": [list(a) for a in s]}
+        elif c["k"] == "inter":
+            ops = c["ops"]
+            for cut in range(len(ops) - 1, 0, -1):          # shorter prefixes
+                yield {"k": "inter", "n": c["n"], "ops": ops[:cut]}
         elif c["k"] == "seq":
             seq = c["seq"]
             for i in range(len(seq)):
